@@ -3,6 +3,7 @@ import itertools
 import random
 
 import numpy as np
+import pandas as pd
 
 from . import hcm
 from .core import Prop
@@ -44,7 +45,7 @@ class C05(Prop):
     ]
     PARTIAL = {"PylifeVerif.C05.hcm_batch_eq_single_code": "(the same hypotheses apply to hcm_batch_eq_single_LF_code, hcm_batch_eq_single and hcm_batch_eq_single_LF) batch = single is proved for positive INTEGER factors and one Law shared by all points, under SignPreserving (a law whose secondary branch follows the sign of the load range - true for every monotone law; proved in Lean for the linear stub law, signPreserving_lawLinear); for a non-monotone law the per-column min/max selection by the first point's values can differ between points"}
     RULE = ("case = (load sequence of a reference point, integer load factors of 1-4 points - first factor 1..3, later ones 0..4, 0 = unloaded point -, "
-            "one of six load_step label layouts, exact stub notch law; oracle-only cases with positive non-integer factors); every column of "
+            "one of six load_step label layouts, exact stub notch law; oracle-only cases with positive non-integer factors, and oracle-only cases with the library's binned extended Neuber law - one table column per point, half of them with every reversal on a class edge -); every column of "
             "the recorder's collective (min/max load, stress, strain, running strain extremes, closed/half flag, zero-mean flag, pass number) and the "
             "visited strain values are compared bit-exactly with the model; the Lean guideline procedure is compared with the oracle's reference "
             "procedure; oracle: reference procedure vs implementation, batch vs single, negation mirror, derived columns; non-trivial = at least one "
@@ -95,16 +96,31 @@ class C05(Prop):
                        "labels": rng.choice(list(hcm.LABELS))}
             yield {"kind": "seq", "law": rng.choice(["linear", "sat"]), "samples": s, "ratios": rng.choice(RATIOS),
                    "labels": rng.choice(list(hcm.LABELS))}
+        for _ in range(40 if tier == "quick" else 600):
+            # the library's own law: binned extended Neuber with ONE look-up table column per point (oracle only: batch = alone).
+            # Half of the sequences have every reversal and load range exactly on class edges of the tables (multiples of
+            # max/bins), where the class of a point must be searched in that point's own column (seeded change C05-m5);
+            # `round_up`: table maxima rounded up to a multiple of 100, so the columns are no multiples of each other
+            bins = rng.choice([50, 100])
+            top = rng.choice([400, 500, 800])
+            unit = top // bins if rng.random() < 0.5 else 1
+            n = rng.randint(3, 9)
+            s = [rng.choice([-1, 1]) * unit * rng.randint(1, top // unit) for _ in range(n)]
+            s[rng.randrange(n)] = rng.choice([-1, 1]) * top
+            if two_distinct(s):
+                yield {"kind": "binned", "law": "binned-extended-neuber", "samples": s, "bins": bins,
+                       "ratios": [1.0] + [rng.choice([1.3, 0.8, 0.5, 2.0, 0.37]) for _ in range(rng.randint(1, 2))],
+                       "round_up": rng.choice([0, 0, 100]), "labels": rng.choice(list(hcm.LABELS))}
 
     def model_lines(self, case):
-        if case["kind"] == "fratio":
+        if case["kind"] in ("fratio", "binned"):
             return []
         t1, t2 = hcm.ref_feed(case["samples"])
         return [hcm.model_line(case["law"], case["samples"], case["ratios"]),
                 f"hcmg {case['law']} {len(t1)} {' '.join(map(str, t1 + t2))}"]
 
     def impl_lines(self, case):
-        if case["kind"] == "fratio":
+        if case["kind"] in ("fratio", "binned"):
             return []
         det, rec, rows = rows_of(case["samples"], case["ratios"], case["law"], case.get("labels", "0..n-1"))
         st = self.stats
@@ -154,9 +170,38 @@ class C05(Prop):
                         return (f"point {k} (factor {f}): column {c} is {a} in the batch and {b} alone (sequence {s}, factors {ratios}, law {lawname})", "batch-vs-single")
         return None
 
+    def _oracle_binned(self, case):
+        import math
+        from pylife.materiallaws.notch_approximation_law import Binned, ExtendedNeuber
+        s, ratios, bins = case["samples"], case["ratios"], case["bins"]
+        self.stats["binned_law_cases"] = self.stats.get("binned_law_cases", 0) + 1
+        base = ExtendedNeuber(206e3, 1184., 0.187, 3.5)
+        top = max(abs(x) for x in s)
+        maxima = [top * f for f in ratios]
+        if case.get("round_up"):
+            maxima = [math.ceil(m / case["round_up"]) * case["round_up"] for m in maxima]
+        mser = pd.Series([float(m) for m in maxima], index=pd.Index(range(len(ratios)), name="node_id"))
+        det, rec = hcm.run_detector(s, ratios, Binned(base, mser, bins), case.get("labels", "0..n-1"))
+        rows = hcm.collective_rows(rec, len(ratios))
+        for k, f in enumerate(ratios):
+            _d, r1 = hcm.run_detector([float(x * f) for x in s], [1], Binned(base, float(maxima[k]), bins))
+            single = hcm.collective_rows(r1, 1)
+            if len(single) != len(rows):
+                return (f"binned law, point {k} (factor {f}): {len(rows)} hystereses in the batch, {len(single)} alone (sequence {s})", "batch-vs-single")
+            for hb, hs in zip(rows, single):
+                for c in COLS + DERIVED + ["is_closed_hysteresis", "is_zero_mean_stress_and_strain", "run_index", "epsilon_min_LF", "epsilon_max_LF"]:
+                    a, b = float(hb[c][k]), float(hs[c][0])
+                    # (the tables of all points are solved in one vectorised run: last digits may differ, a class may not)
+                    if not (a == b or (a != a and b != b) or abs(a - b) <= 1e-9 * max(abs(a), abs(b), 1e-6)):
+                        return (f"binned extended Neuber ({bins} classes, table maxima {maxima}), point {k} (factor {f}): column {c} is {a} in the "
+                                f"batch and {b} alone (sequence {s}, factors {ratios})", "batch-vs-single")
+        return None
+
     def oracle(self, case):
         if case["kind"] == "fratio":
             return self._oracle_fratio(case)
+        if case["kind"] == "binned":
+            return self._oracle_binned(case)
         s, ratios, lawname = case["samples"], case["ratios"], case["law"]
         det, rec, rows = rows_of(s, ratios, lawname, case.get("labels", "0..n-1"))
         n = len(ratios)
